@@ -1,10 +1,11 @@
 #!/bin/sh
 # tools/fullpass.sh [quick|thorough] — every property's check on /repo as it is; one summary line each
 tier=${1:-quick}
-cd /verif || exit 2
+cd "$(dirname "$0")/.." || exit 2
+out=${FULLPASS_OUT:-/var/tmp}
 for i in 01 02 03 04 05 06 07 08 09 10 11 12 13 14 15 16 17 18 19 20; do
   s=$(date +%s)
-  ./check C$i --tier $tier > /var/tmp/fullpass_C$i.$tier.log 2>&1; rc=$?
+  ./check C$i --tier $tier > $out/fullpass_C$i.$tier.log 2>&1; rc=$?
   e=$(date +%s)
-  echo "C$i rc=$rc $((e-s))s known=$(grep -c '^KNOWN-FINDING' /var/tmp/fullpass_C$i.$tier.log) viol=$(grep -c '^VIOLATION' /var/tmp/fullpass_C$i.$tier.log)"
+  echo "C$i rc=$rc $((e-s))s known=$(grep -c '^KNOWN-FINDING' $out/fullpass_C$i.$tier.log) viol=$(grep -c '^VIOLATION' $out/fullpass_C$i.$tier.log)"
 done
